@@ -6,7 +6,7 @@ package db
 // hasHotJournal + first readJournalHdr of pager_playback (pager.c), over ANY
 // journal bytes and length (a superset of every crash state of a writer).
 
-const vhJournalName = "/tmp/vh-c09-journal"
+var vhJournalName = verifTempName("vh-c09-journal")
 
 var vhJournalMagic = [8]byte{0xd9, 0xd5, 0x05, 0xf9, 0x20, 0xa1, 0x63, 0xd7}
 
